@@ -22,6 +22,7 @@ import (
 	"mellium.im/xmpp/internal/attr"
 	"mellium.im/xmpp/internal/marshal"
 	intstream "mellium.im/xmpp/internal/stream"
+	"mellium.im/xmpp/internal/verifhook"
 	"mellium.im/xmpp/internal/wskey"
 	"mellium.im/xmpp/jid"
 	"mellium.im/xmpp/stanza"
@@ -509,6 +510,7 @@ func (s *Session) Serve(h Handler) (err error) {
 // If an error is returned (the original error or a different one), it has not
 // been handled fully and must be handled by the caller.
 func (s *Session) sendError(err error) (e error) {
+	verifhook.Yield("xmpp.sendError.entry")
 	s.out.Lock()
 	defer s.out.Unlock()
 	s.stateMutex.Lock()
@@ -879,6 +881,7 @@ func (s *Session) TokenReader() xmlstream.TokenReadCloser {
 // Calling Close() multiple times will only result in one closing
 // </stream:stream> being sent.
 func (s *Session) Close() error {
+	verifhook.Yield("xmpp.Close.entry")
 	s.out.Lock()
 	defer s.out.Unlock()
 	s.stateMutex.Lock()
@@ -948,6 +951,7 @@ func (s *Session) SetCloseDeadline(t time.Time) error {
 func (s *Session) Encode(ctx context.Context, v interface{}) error {
 	s.out.Lock()
 	defer s.out.Unlock()
+	verifhook.Yield("xmpp.Encode.locked")
 
 	defer setWriteDeadline(ctx, s.conn)()
 	return marshal.EncodeXML(s.out.e, v)
@@ -960,6 +964,7 @@ func (s *Session) Encode(ctx context.Context, v interface{}) error {
 func (s *Session) EncodeElement(ctx context.Context, v interface{}, start xml.StartElement) error {
 	s.out.Lock()
 	defer s.out.Unlock()
+	verifhook.Yield("xmpp.EncodeElement.locked")
 
 	defer setWriteDeadline(ctx, s.conn)()
 	return marshal.EncodeXMLElement(s.out.e, v, start)
@@ -983,6 +988,7 @@ func (s *Session) SendElement(ctx context.Context, r xml.TokenReader, start xml.
 func send(ctx context.Context, s *Session, r xml.TokenReader, start *xml.StartElement) error {
 	s.out.Lock()
 	defer s.out.Unlock()
+	verifhook.Yield("xmpp.send.locked")
 
 	defer setWriteDeadline(ctx, s.conn)()
 
